@@ -315,7 +315,10 @@ func (bs *baseServer) Handshake(transportName string, ctx *types.HttpContext) (*
 		headers, req := args[0].(*utils.ParameterBag), args[1].(*types.HttpContext)
 		if !ctx.Query().Has("sid") {
 			if cookie := bs.opts.Cookie(); cookie != nil {
-				headers.Set("Set-Cookie", cookie.String())
+				// the cookie identifies the session: its value is the session id
+				c := *cookie
+				c.Value = id
+				headers.Set("Set-Cookie", c.String())
 			}
 			bs.Emit("initial_headers", headers, req)
 		}
